@@ -1098,7 +1098,9 @@ func runC01Server(c *Ctx) {
 		// the same two facts by proof, for a clamp that is not written as `if len > max`: every slice getDataSlice
 		// returns is no longer than one of its uint32 parameters (that parameter is then the clamp) and than p.Len
 		provedLen := map[ssa.Instruction]bool{}
-		if !clamp {
+		_ = clamp
+		clamp = false // the comparison alone does not clamp (its arm may assign the wrong thing): always by proof
+		{
 			z := newZWorld(p).get(g)
 			for _, prm := range g.Params {
 				if !isBasicKind(types.Uint32)(prm.Type()) {
